@@ -113,6 +113,10 @@ func panicSignature[T any](routeName string, pi *panicInfo, seq []T) string {
 		}
 		return "C14/panic/map-chunk-nil-value"
 	}
+	if strings.HasSuffix(pi.frame, "internal.concatMaps") && hasSelfUnequalKey(reflect.ValueOf(seq)) {
+		// one class on every route: a map (chunk, Extra, nested) with a key that is not equal to itself
+		return "C14/panic/map-key-not-equal-to-itself"
+	}
 	if strings.HasSuffix(pi.frame, "internal.ConcatItems") && allNilInterfaces(seq) {
 		return "C14/panic/interface-chunks-all-nil"
 	}
@@ -336,6 +340,8 @@ type routeSet struct {
 	mp    []route[map[string]any]
 	mpStr []route[map[string]string]
 	mpMsg []route[map[string]*schema.Message]
+	mpFlt []route[map[float64]any]
+	mpAny []route[map[any]any]
 	str   []route[string]
 	integ []route[int]
 	reg   []route[Reg]
@@ -351,6 +357,8 @@ func buildRoutes() *routeSet {
 		mp:    []route[map[string]any]{graphInvoke[map[string]any]("map[string]any"), graphStreamState[map[string]any]("map[string]any")},
 		mpStr: []route[map[string]string]{graphInvoke[map[string]string]("map[string]string")},
 		mpMsg: []route[map[string]*schema.Message]{graphInvoke[map[string]*schema.Message]("map[string]*schema.Message")},
+		mpFlt: []route[map[float64]any]{graphInvoke[map[float64]any]("map[float64]any"), graphStreamState[map[float64]any]("map[float64]any")},
+		mpAny: []route[map[any]any]{graphInvoke[map[any]any]("map[any]any")},
 		str:   []route[string]{graphInvoke[string]("string"), graphStreamState[string]("string")},
 		integ: []route[int]{graphInvoke[int]("int")},
 		reg:   []route[Reg]{graphInvoke[Reg]("Reg(registered)"), graphStreamState[Reg]("Reg(registered)")},
@@ -393,7 +401,8 @@ func TestCheck(t *testing.T) {
 	cfg := mon.Load("C14")
 	rep := mon.NewReporter(cfg,
 		"exploration",
-		"a case = one PRNG-generated chunk sequence (kind ∈ message, message+deep extras, message list, map[string]any, typed maps, string, int, registered struct, unregistered struct, interface) "+
+		"a case = one PRNG-generated chunk sequence (kind ∈ message, message+deep extras, message list, map[string]any, typed maps, string, int, registered struct, unregistered struct, interface, map[float64]any, map[any]any; "+
+			"14% of the Extra / map schemas hold maps with other key types than string below some keys: float64 / float32 / named float keys incl. NaN, +Inf, -Inf, -0 and +0, int, bool, named string, struct, array and interface keys of mixed dynamic types, 13 map types) "+
 			"run through the public concatenation routes (schema.ConcatMessages, schema.ConcatMessageStream, compose graph Invoke over a stream-only lambda, compose graph Stream with a non-stream state pre-handler); "+
 			"non-trivial = at least 2 chunks and, on at least one route, the whole concatenation, its repetition on a deep copy, the reference comparison and every split point (all k for length ≤ 8, 4 random k above, 2 two-level splits) were executed without a panic; distinct by kind + canonical rendering of the sequence",
 		[]string{
@@ -401,6 +410,7 @@ func TestCheck(t *testing.T) {
 			"a panic inside a graph node is recognised by the error the executor builds from it (internal/safe.panicErr; unexported, so by type name / its fixed 'panic error:' marker)",
 			"the reference takes from the anchors (not from the statement) that finish reason = last non-empty, usage = field-wise maximum, multi-content = last non-empty, builtin scalars = last value, unregistered types = at most one non-zero value; the placement of tool calls without index relative to indexed ones is not compared against the reference",
 			"untyped nil map values: the reference is undefined for them (only the laws and totality apply)",
+			"map entries are grouped by Go's key equality: -0 and +0 are one key; a key that is not equal to itself (NaN inside) never merges with another entry, every such entry of every chunk is an entry of the result with its own value; such entries are compared as a multiset",
 			"token usage values are generated non-negative",
 		},
 		8000)
@@ -416,6 +426,9 @@ func TestCheck(t *testing.T) {
 	rep.Require("concat_calls_through_graphs", 20000)
 	rep.Require("toolcall_fragments_with_index", 5000)
 	rep.Require("cases_extra_depth3", 200)
+	rep.Require("cases_with_non_string_map_keys", 300)
+	rep.Require("cases_with_nan_map_key_or_value", 100)
+	rep.Require("cases_with_nan_map_key_completed", 50)
 
 	routes := buildRoutes()
 	ck := &checker{rep: rep}
@@ -424,7 +437,7 @@ func TestCheck(t *testing.T) {
 		p := r.Intn(100)
 		var kind, digest string
 		var nchunks int
-		var done bool
+		var done, sawKeyed, sawNaN bool
 		switch {
 		case p < 48:
 			heavy := p >= 34
@@ -446,6 +459,7 @@ func TestCheck(t *testing.T) {
 			if s.env.conflicts > 0 {
 				rep.Count("cases_with_extra_type_conflict", 1)
 			}
+			sawKeyed, sawNaN = s.env.sawKeyed, s.env.sawNaN
 			nchunks, digest = len(seq), canon(seq)
 			done = checkSeq(ck, r, kind, seq, digest, pickRoutes(r, routes.msg, 0.2))
 		case p < 60:
@@ -465,6 +479,7 @@ func TestCheck(t *testing.T) {
 			if e.conflicts > 0 {
 				rep.Count("cases_with_extra_type_conflict", 1)
 			}
+			sawKeyed, sawNaN = e.sawKeyed, e.sawNaN
 			nchunks, digest = len(seq), canon(seq)
 			done = checkSeq(ck, r, kind, seq, digest, pickRoutes(r, routes.mp, 0.15))
 		case p < 81:
@@ -493,10 +508,26 @@ func TestCheck(t *testing.T) {
 			nchunks, digest = len(seq), canon(seq)
 			done = checkSeq(ck, r, kind, seq, digest, routes.unreg)
 		case p < 97:
-			kind = "int"
-			seq := genIntSeq(r)
-			nchunks, digest = len(seq), canon(seq)
-			done = checkSeq(ck, r, kind, seq, digest, routes.integ)
+			// one case in three of this percent: chunks that are maps with float / interface keys themselves
+			switch r.Intn(3) {
+			case 0:
+				kind = "int"
+				seq := genIntSeq(r)
+				nchunks, digest = len(seq), canon(seq)
+				done = checkSeq(ck, r, kind, seq, digest, routes.integ)
+			case 1:
+				kind = "map-float-key"
+				seq, e := genFloatMapSeq(r)
+				sawKeyed, sawNaN = true, e.sawNaN
+				nchunks, digest = len(seq), canon(seq)
+				done = checkSeq(ck, r, kind, seq, digest, pickRoutes(r, routes.mpFlt, 0.3))
+			default:
+				kind = "map-interface-key"
+				seq, e := genAnyKeyMapSeq(r)
+				sawKeyed, sawNaN = true, e.sawNaN
+				nchunks, digest = len(seq), canon(seq)
+				done = checkSeq(ck, r, kind, seq, digest, routes.mpAny)
+			}
 		default:
 			kind = "interface"
 			seq := genAnySeq(r)
@@ -504,6 +535,15 @@ func TestCheck(t *testing.T) {
 			done = checkSeq(ck, r, kind, seq, digest, routes.iface)
 		}
 		rep.Count("cases_"+kind, 1)
+		if sawKeyed {
+			rep.Count("cases_with_non_string_map_keys", 1)
+		}
+		if sawNaN {
+			rep.Count("cases_with_nan_map_key_or_value", 1)
+			if done {
+				rep.Count("cases_with_nan_map_key_completed", 1)
+			}
+		}
 		rep.Count("chunks_total", int64(nchunks))
 		if nchunks > 8 {
 			rep.Count("cases_longer_than_8", 1)
